@@ -1,6 +1,7 @@
 package zzh
 
 import (
+	"unicode/utf8"
 	"net/http"
 
 	"MODULE/restli"
@@ -91,8 +92,13 @@ func Harness_C03G_Envelopes() {
 	m := &mockThings{item: &vt.Item{Name: "x"}}
 	total := int32(7)
 	m.elements = &things.Elements{Elements: []*vt.Item{{Name: "e"}}, Paging: &common.CollectionMetadata{Start: 0, Count: 10, Total: &total, Links: []*common.Link{}}}
-	m.batch = &things.BatchEntities{Results: map[string]*vt.Item{"a": {Name: "r"}}, Statuses: map[string]int{"a": 200},
-		Errors: map[string]*common.ErrorResponse{"b": {Status: c11Ptr32(404)}}}
+	// batch keys: one or two solver-chosen bytes (valid UTF-8); in the body they
+	// must appear in the reduced encoding (reference escaper ref.ReducedEscape)
+	ka, kb := verif.String(1), "b"+verif.String(1)
+	verif.Assume(utf8.ValidString(ka) && utf8.ValidString(kb))
+	ea, eb := ref.ReducedEscape(ka), ref.ReducedEscape(kb)
+	m.batch = &things.BatchEntities{Results: map[string]*vt.Item{ka: {Name: "r"}}, Statuses: map[string]int{ka: 200},
+		Errors: map[string]*common.ErrorResponse{kb: {Status: c11Ptr32(404)}}}
 	m.pong = "pong!"
 	m.createdID = "new id"
 	h := newServer(m)
@@ -110,9 +116,9 @@ func Harness_C03G_Envelopes() {
 		rec, _ = serve(h, "GET", "/things?ids=List(a,b)", map[string]string{restli.MethodHeader: "batch_get"}, nil)
 		t, ok := ref.ParseJSON(rec.body.String())
 		verif.Assert(ok, "batch response is not JSON")
-		verif.Assert(t.Get("results") != nil && t.Get("results").Get("a") != nil, "results member wrong")
-		verif.Assert(t.Get("statuses") != nil && t.Get("statuses").Get("a").S == "200", "statuses member wrong")
-		verif.Assert(t.Get("errors") != nil && t.Get("errors").Get("b") != nil && t.Get("errors").Get("b").Get("status").S == "404", "errors member wrong")
+		verif.Assert(t.Get("results") != nil && len(t.Get("results").Keys) == 1 && t.Get("results").Get(ea) != nil, "results member wrong (keys must be in the reduced encoding): "+rec.body.String())
+		verif.Assert(t.Get("statuses") != nil && len(t.Get("statuses").Keys) == 1 && t.Get("statuses").Get(ea) != nil && t.Get("statuses").Get(ea).S == "200", "statuses member wrong (keys must be in the reduced encoding): "+rec.body.String())
+		verif.Assert(t.Get("errors") != nil && len(t.Get("errors").Keys) == 1 && t.Get("errors").Get(eb) != nil && t.Get("errors").Get(eb).Get("status").S == "404", "errors member wrong (keys must be in the reduced encoding): "+rec.body.String())
 	case 2:
 		rec, _ = serve(h, "POST", "/things?action=ping", map[string]string{restli.MethodHeader: "action"}, []byte(`{"msg":"m"}`))
 		t, ok := ref.ParseJSON(rec.body.String())
@@ -123,6 +129,7 @@ func Harness_C03G_Envelopes() {
 		id := rec.header.Get(restli.IDHeader)
 		t, ok := ref.ParseROR2(id)
 		verif.Assert(ok && t.Kind == ref.String && t.S == "new id", "id header does not denote the created id: "+id)
+		verif.Assert(id == ref.ReducedEscape("new id"), "id header is not in the reduced encoding: "+id)
 		verif.Assert(rec.header.Get("Location") != "", "location header missing")
 	case 4:
 		rec, _ = serve(h, "GET", "/things/k", map[string]string{restli.MethodHeader: "get"}, nil)
